@@ -96,7 +96,7 @@ type streamWorld struct {
 	closed   bool
 }
 
-func (w *streamWorld) bad(s string) { w.viol[s] = true }
+func (w *streamWorld) bad(s string) { sched.Own(func() { w.viol[s] = true }) }
 
 // want is what a query of the given spec returns when evaluated on content.
 func (spec streamQuerySpec) want(content srows) srows {
@@ -252,25 +252,28 @@ func (w *streamWorld) checkHeld(name string, q *stream.V5SQuery, complete bool) 
 // introducer plays the single goroutine that serialises all snapshot transitions. steps: "w" = new batch + flush
 // publication + gc, "m" = merge publication + gc.
 func (w *streamWorld) introducer(steps string) {
-	cur := w.expected[w.t.NextEpoch()-1]
+	var cur srows
+	sched.Own(func() { cur = w.expected[w.t.NextEpoch()-1] })
 	if strings.Contains(steps, "w") {
 		// 1. a new batch becomes visible atomically
 		cur = streamUnion(cur, streamBatch(400))
-		w.expected[w.t.NextEpoch()] = cur
+		sched.Own(func() { w.expected[w.t.NextEpoch()] = cur })
 		w.t.IntroducePart(w.intro)
 		sched.Observe(w.t.Record)
 		// 2. flush: memory part p3 is replaced by its file part (files produced beforehand, see template)
-		w.expected[w.t.NextEpoch()] = cur
+		sched.Own(func() { w.expected[w.t.NextEpoch()] = cur })
 		w.t.FlushB(w.flush)
 		sched.Observe(w.t.Record)
 		w.t.GC()
 	}
 	if strings.Contains(steps, "m") {
 		// 3. merge: file parts p1,p2 are replaced by the merged part
-		for _, id := range w.merge.IDs {
-			w.replaced[w.t.PartDir(id)] = true
-		}
-		w.expected[w.t.NextEpoch()] = cur
+		sched.Own(func() {
+			for _, id := range w.merge.IDs {
+				w.replaced[w.t.PartDir(id)] = true
+			}
+			w.expected[w.t.NextEpoch()] = cur
+		})
 		w.t.MergeB(w.merge)
 		sched.Observe(w.t.Record)
 		w.t.GC()
@@ -317,7 +320,7 @@ func streamSetup(sc scenario, seq *int) sched.Harness {
 		case "merger":
 			threads = append(threads, func() { w.introducer("m") })
 		case "close":
-			threads = append(threads, func() { w.closed = true; w.t.Close() })
+			threads = append(threads, func() { sched.Own(func() { w.closed = true }); w.t.Close() })
 		default:
 			panic("unknown role " + r)
 		}
@@ -481,7 +484,7 @@ func streamTemplate() *streamTmpl {
 }
 
 func init() {
-	register(family{Name: "stream", Setup: streamSetup, Scenarios: []scenario{
+	register(family{Name: "stream", RaceOK: true, Setup: streamSetup, Scenarios: []scenario{
 		// a query over exactly one part / over all parts, against everything the introducer does (2 threads)
 		{Name: "S1", Roles: []string{"idxq1", "introducer"}},
 		{Name: "S2", Roles: []string{"tsq1", "introducer"}},
